@@ -113,10 +113,27 @@ def localize(o, t, direction, depth=0):
     elif (origin is dict or origin in _MAP_ORIGINS) and isinstance(o, dict) and len(args) == 2:
         subs = [(k, args[0]) for k in o] + [(v, args[1]) for v in o.values()]
     elif origin is tuple and isinstance(o, tuple) and args and Ellipsis not in args and len(args) == len(o) \
-            and not any(getattr(a, "__unpacked__", False) for a in args) and args != ((),):
+            and not any(getattr(a, "__unpacked__", False) or typing_extensions.get_origin(a) is typing_extensions.Unpack for a in args) \
+            and args != ((),):
         subs = list(zip(o, args))
     elif origin is tuple and isinstance(o, tuple) and len(args) == 2 and args[1] is Ellipsis:
         subs = [(e, args[0]) for e in o]
+    elif origin is tuple and isinstance(o, tuple) and args and Ellipsis not in args:
+        # prefix + one unpacked variadic part + suffix
+        def inner(a):
+            if typing_extensions.get_origin(a) is typing_extensions.Unpack:
+                return typing_extensions.get_args(a)[0]
+            if getattr(a, "__unpacked__", False):
+                return a
+            return None
+        idx = [i for i, a in enumerate(args) if inner(a) is not None]
+        if len(idx) == 1:
+            i = idx[0]
+            ia = typing_extensions.get_args(inner(args[i]))
+            npre, nsuf = i, len(args) - i - 1
+            if len(ia) == 2 and ia[1] is Ellipsis and len(o) >= npre + nsuf:
+                subs = list(zip(o[:npre], args[:npre])) + [(e, ia[0]) for e in o[npre:len(o) - nsuf]] \
+                    + list(zip(o[len(o) - nsuf:] if nsuf else (), args[i + 1:]))
     for so, stype in subs:
         try:
             exp = member.member_rt(so, stype)
